@@ -11,7 +11,7 @@ RULE = ('strings / identifiers / nested values / object declarations over an alp
         'ConfigWriter (bytes compared with the model), compiled by the REAL ConfigCompiler and read back; raw literal texts (octal / bad '
         'escapes, heredocs, comments, duration suffixes) for the lexer model; create/delete/cascade sequences of length <= 6 through the REAL '
         'ConfigObjectUtility in the scratch _api package with failures provoked by invalid attribute, validation error, dangling reference, '
-        'duplicate name; template names with quote/newline; Service requests carrying a host_name attribute that is consistent with / contradicts (existing parent, missing parent) the composed name; a creation rejected in the commit phase followed by a valid creation of the same name, which must succeed. non-trivial = the case carries a payload byte outside [A-Za-z0-9_] or a '
+        'duplicate name; after EVERY operation the complete file tree below the package (one entry per object file: whose file, digest of the bytes) compared with the model and judged by the oracle (failed operation: identical tree; successful create: exactly the file of the target is new and holds the generated text; successful delete: exactly the files of the deleted closure are gone); 17 object types (Host, User, UserGroup, HostGroup, ServiceGroup, Check/Notification/EventCommand, TimePeriod, Zone, ApiUser, Service, host- and service-level Notification, Dependency, Comment, Downtime, ScheduledDowntime); families dup-runtime-<T>/dup-static-<T> (same request again, other attributes, other case, create-delete-create, first object static), cascade-graph/-chain/-dependency/-command (random dependency graphs incl. diamonds and a run-time check command; deletes with and without cascade), fail-<T>, extra-parts-<T>; cw_restart = the package directory loaded the way a restart loads it must yield exactly the live run-time objects (aimed families always, random sequences in the thorough tier); template names with quote/newline; Service requests carrying a host_name attribute that is consistent with / contradicts (existing parent, missing parent) the composed name; a creation rejected in the commit phase followed by a valid creation of the same name, which must succeed. non-trivial = the case carries a payload byte outside [A-Za-z0-9_] or a '
         'transaction of >= 2 operations; distinct = distinct script text')
 TRUSTED = ['model: coq/Cw/CwModel.v (transcription of ConfigWriter::Emit*, EscapeIcingaString, ConfigObjectUtility::CreateObjectConfig, '
            'config_lexer.ll INITIAL/STRING/HEREDOC/C_COMMENT states, a recogniser for the writer skeleton of config_parser.yy), coq/Cw/CwTxn.v '
@@ -19,7 +19,9 @@ TRUSTED = ['model: coq/Cw/CwModel.v (transcription of ConfigWriter::Emit*, Escap
            'source facts re-extracted each run (coq/Facts/Facts_c17.v): writer keyword list, identifier regex and regex function, escape table, '
            'import emission, EmitNumber format, lexer keyword list, lexer identifier rules, string escapes, chunk rule',
            'boost::regex semantics of ^/$ (default perl syntax: also at embedded \\n \\r \\f) transcribed by hand; glibc printf("%.6f") is correctly rounded (half-even on the exact value)',
-           'hook H1 (virtual clock) for the `version` attribute']
+           'hook H1 (virtual clock) for the `version` attribute',
+           'glue: FNV-1a-64 digest of file bytes (harness) / of the generated text (OCaml) - the same 6-line function on both sides; the table of reference attributes per type (ocaml/ops_cw.ml refs_of) from which the model dependencies and the oracle closure conditions are derived; ConfigObjectUtility::ComputeNewObjectConfigPath is used by the harness to attribute a file to a tracked (type, name)',
+           'cw_restart emulates a restart for the _api package only (unregister run-time objects, compile + commit + activate all object files in one activation context); statically configured objects are not reloaded']
 ASSUMPTIONS = ['a number is passed to model and harness as the shortest fixed notation (>= 6 decimals) that reads back as the binary64 under test; that this is what a correctly rounded printf/strtod pair produces is established by the run (byte comparison with the real writer), not inside the Gallina model', 'attribute paths within one request do not overlap (no key is a dotted prefix of another)',
                'HTTP layer / JSON decoding / permissions are not part of this check (C18, C20)']
 
@@ -412,6 +414,13 @@ def gen_txn(rnd, inexact_ok=True, nul_ok=False):
             if ('Host', h) in exist and ('Service', h + '!' + s) not in exist:
                 exist[('Service', h + '!' + s)] = False
             lines.append('cw_static type=Service name=%s' % hx(h + '!' + s))
+        elif r < 0.82 and exist:
+            # the name of an object that exists (run-time or static) requested again, with fresh attributes
+            k = rnd.choice(sorted(exist))
+            if k[0] == 'Host':
+                lines.append('cw_create type=Host name=%s attrs=%s exp=ok%s' % (hx(k[1]), enc(host_attrs(rnd, inexact_ok, nul_ok)), FT))
+            else:
+                lines.append('cw_create type=Service name=%s attrs=%s exp=ok%s' % (hx(k[1]), enc({'check_command': 'cwcmd', 'notes': rstr(rnd) or 'n'}), SFT))
         else:
             casc = rnd.randint(0, 1)
             if rnd.random() < 0.7 or not exist:
